@@ -172,11 +172,11 @@ def main(argv=None):
     if not args.replay:
         evdir = os.path.join(E.VERIF, "evidence")
         if E.speckit_root() != "/repo":   # mutation self-test against a scratch copy: keep real evidence
-            evdir = os.path.join(E.CACHE, "evidence-selftest")
+            evdir = os.path.join(scratch, "evidence-selftest")
         os.makedirs(evdir, exist_ok=True)
         evpath = os.path.join(evdir, prop + ".json")
         with open(evpath, "w") as fh:
-            json.dump(evidence, fh, indent=1, allow_nan=False, default=str)
+            json.dump(_jsonsafe(evidence), fh, indent=1, allow_nan=False, default=str)
         err = _schema_validate(json.load(open(evpath)))
         if err and not violations:
             quota_msgs.append("evidence does not validate: " + err)
@@ -205,6 +205,17 @@ def main(argv=None):
             print("HARNESS-ERROR property=%s %s" % (prop, q))
         return 2
     return 0
+
+
+def _jsonsafe(v):
+    """Strict JSON: non-finite floats become strings."""
+    if isinstance(v, float) and (v != v or v in (float("inf"), float("-inf"))):
+        return repr(v)
+    if isinstance(v, dict):
+        return {str(k): _jsonsafe(x) for k, x in v.items()}
+    if isinstance(v, (list, tuple)):
+        return [_jsonsafe(x) for x in v]
+    return v
 
 
 def _rm(path, keep=False):
@@ -250,4 +261,13 @@ def _warm(envtag):
 
 
 if __name__ == "__main__":
-    sys.exit(main())
+    try:
+        rc = main()
+    except SystemExit:
+        raise
+    except BaseException:  # noqa: BLE001 - a crash of the harness is never a VIOLATION (exit 1)
+        import traceback
+        traceback.print_exc()
+        print("HARNESS-ERROR runner crashed")
+        rc = 2
+    sys.exit(rc)
